@@ -43,6 +43,19 @@ def main(argv=None):
         mod.run(ctx)
         if a.tier == 'thorough' and hasattr(mod, 'thorough'):
             mod.thorough(ctx)
+        if a.tier == 'thorough' and not os.environ.get('VERIF_NO_MUTANTS'):
+            pre_ok = all(o.verdict != 'UNDECIDED' for o in ctx.obligations)
+            if pre_ok:
+                from . import mutate
+                res = mutate.run_thorough(pid, a.repo, seed)
+                ctx.extra['sensitivity_analysis'] = res
+                with ctx.obligation('THOROUGH.SENSITIVITY', 'site mutants of the consulted functions') as ob:
+                    ob.evaluations += res['mutants_analysed']
+                    ob.saw('%d functions consulted by the analysis' % len(res['functions_consulted']))
+                    ob.note('mutants: %s (generated %d); survivors are equivalent edits or blind spots, listed in the evidence'
+                            % (res['summary'], res['mutants_generated']))
+                    if res['mutants_analysed'] == 0 or res['summary'].get('killed', 0) == 0:
+                        ob.undecided('no site mutant of the consulted functions changes the verdict: the check is insensitive')
         code, lines = ctx.finish()
     except Exception as e:      # never let a traceback look like a violation
         print('ANALYSIS-ERROR property=%s rule=ENGINE reason=%s: %s' % (pid, type(e).__name__, e))
